@@ -125,8 +125,8 @@ class Rig:
         r.add_int(cid)
         if self.reply_ok:
             r.add_int(7000 + (cid & 0xFF))
-            r.add_int(1 << 21)
-            r.add_int(1 << 15)
+            r.add_int(getattr(self, "reply_window", 1 << 21))
+            r.add_int(getattr(self, "reply_maxpkt", 1 << 15))
             r.rewind()
             self.t._parse_channel_open_success(r)
         else:
@@ -178,12 +178,12 @@ class Rig:
             self.problems.append(("live-channel-overwritten", "id %d registered twice" % cid))
         self.held[cid] = chan
 
-    def peer_msg(self, kind):
+    def peer_msg(self, kind, window=1 << 21, maxpkt=1 << 15, peer_id=55):
         m = self.Message()
         m.add_string(kind)
-        m.add_int(55)
-        m.add_int(1 << 21)
-        m.add_int(1 << 15)
+        m.add_int(peer_id)
+        m.add_int(window)
+        m.add_int(maxpkt)
         if kind == "x11":
             m.add_string("o")
             m.add_int(1)
@@ -481,6 +481,95 @@ def threaded_opens(ctx, rng, nthreads, per_thread):
             break
 
 
+def refusal_during_peer_open(ctx, rng):
+    """A local open whose refusal arrives while a peer open is parked inside the server's check_channel_request
+    (between `_parse_channel_open`'s allocation and its registration), followed by two more local opens.
+    Returns (case, model requests, real replies)."""
+    from pv.core import InfraError
+    rig = Rig(True)
+    counter, ids = gen_layout(rng, False)
+    ids = [i for i in ids if (i - counter) % M24 > 12]      # keep the next few ids free: no wrap-around needed
+    rig.seed(counter, ids)
+    rig.count_probes = False
+    Message = rig.Message
+    deferred, sent_evt, res = {}, threading.Event(), {}
+    normal_sent = rig._sent
+
+    def sent(m):
+        data = m.asbytes()
+        if data[0] == OPEN and deferred.get("armed"):
+            deferred["armed"] = False
+            msg = Message(data[1:])
+            msg.get_text()
+            deferred["cid"] = msg.get_int()
+            deferred["counter"] = rig.t._channel_counter
+            sent_evt.set()
+            return                      # the peer's answer comes later
+        return normal_sent(m)
+
+    rig.t._send_user_message = sent
+    rig.t._send_message = sent
+
+    def worker():
+        try:
+            res["chan"] = rig.t.open_channel("session", timeout=60)
+        except rig.paramiko.ChannelException:
+            res["refused"] = True
+        except Exception as e:  # noqa
+            res["err"] = repr(e)
+
+    deferred["armed"] = True
+    th = threading.Thread(target=worker, daemon=True)
+    th.start()
+    if not sent_evt.wait(60):
+        raise InfraError("deferred open_channel did not send its CHANNEL_OPEN")
+    q, cq = deferred["cid"], deferred["counter"]
+    reqs = ["init %d %s" % (counter, ",".join(map(str, ids)) or "-"), "local"]
+    impl = ["ok", "%d %d" % (q, cq)]
+    later = []
+
+    def nested():
+        r = Message()
+        r.add_int(q)
+        r.add_int(1)
+        r.add_string("no")
+        r.add_string("en")
+        r.rewind()
+        rig.t._parse_channel_open_failure(r)      # the refusal of the local open, delivered by the transport thread
+        th.join(60)
+        for _ in range(2):
+            later.append(rig.local_open(True))
+
+    peer = rig.peer_open("session", True, nested)
+    if th.is_alive():
+        raise InfraError("refused open_channel did not return")
+    case = {"scenario": "local open refused while a peer open is parked in check_channel_request, then two local opens",
+            "counter": counter, "sentinels": ids[:30], "refused_local_id": q,
+            "peer_open": peer, "later_local_opens": later}
+    ctx.case(("refusal-during-peer-open", counter, tuple(ids)), True)
+    ctx.dist("refusal-during-peer-open-scenarios")
+    if res.get("err") or not res.get("refused"):
+        ctx.fail("open-channel-raised", case, repr(res))
+    for sig, detail in rig.problems[:3]:
+        ctx.fail(sig + ":refused-local-open-during-peer-open", case, detail)
+    if peer is not None:
+        pid, pc, registered = peer
+        reqs += ["palloc", "pfail %d 1" % q]
+        impl += ["%d %d" % (pid, pc), "ok"]
+        for cid, c in later:
+            reqs.append("local")
+            impl.append("%d %d" % (cid, c))
+        reqs.append("pput" if registered else "prej")
+        impl.append("ok 0 0" if registered else "ok")
+        live_ids = [pid] + [cid for cid, _ in later]
+        if len(set(live_ids)) != len(live_ids):
+            ctx.fail("id-in-use:refused-local-open-during-peer-open", case, "live channels share an id: %r" % live_ids)
+    rig.final_check()
+    reqs.append("live")
+    impl.append(",".join(map(str, rig.keys())) or "-")
+    return case, reqs, impl
+
+
 def gated_allocators(ctx, rng):
     """Two allocators, the first stopped (sys.settrace) between `_next_channel`'s map lookup and its counter
     increment — but only if it does NOT hold the transport lock there (a holder cannot be overtaken).  On the code
@@ -646,6 +735,11 @@ def run(ctx):
         spans.append((len(all_reqs), len(reqs)))
         all_reqs += reqs
         cases.append((case, impl))
+    for _ in range(60 if ctx.thorough else 15):
+        case, reqs, impl = refusal_during_peer_open(ctx, rng)
+        spans.append((len(all_reqs), len(reqs)))
+        all_reqs += reqs
+        cases.append((case, impl))
     model = ctx.driver("C23", all_reqs)
     if model is not None:
         for (start, n), (case, impl) in zip(spans, cases):
@@ -672,7 +766,8 @@ META = {
               "within 2^24 iterations whenever fewer than 2^24 ids are live (nextChannel_total, pigeonhole), live ids "
               "stay pairwise distinct and 24-bit (live_distinct_24bit), every open channel stays in the map under peer "
               "OPEN_FAILURE / OPEN_CONFIRMATION messages naming any id, so allocation never returns an open channel's id "
-              "(open_channels_registered, alloc_never_returns_open_id), an id held by _parse_channel_open between its "
+              "(open_channels_registered, alloc_never_returns_open_id), the counter is assigned only by _next_channel and "
+              "never moves backwards (counter_written_only_by_next_channel — AST fact, counter_never_moves_backwards), an id held by _parse_channel_open between its "
               "two lock regions is never handed out again (pending_id_reserved) and no registration overwrites a live "
               "channel (no_collision). The model's nextChannel is proved equal to the Lean kernel translated from the "
               "source of Transport._next_channel on every run (model_eq_generated); every call site of _next_channel "
